@@ -700,6 +700,23 @@ func tthHostileCases(c *Ctx) []json.RawMessage {
 			add(TTHCase{F: (bl+pad)/4 - 1, BLen: bl + pad, Body: body, Total: 50})
 		}
 	}
+	// keys that differ from a well-known key only by bytes a fast comparison may drop (NUL / space / 0xff before or
+	// after): keys of their own, alone and side by side with the key they resemble
+	for i, k := range dictKeys() {
+		if len(k) > 12 && i%3 != 0 {
+			continue
+		}
+		pair := func(a, b string) string {
+			return fmt.Sprintf("%04x", len(a)) + hex.EncodeToString([]byte(a)) + fmt.Sprintf("%04x", len(b)) + hex.EncodeToString([]byte(b))
+		}
+		for _, nk := range []string{"\x00" + k, "\x00\x00" + k, k + "\x00", " " + k, "\xff" + k} {
+			for _, body := range []string{"0000" + "01" + "0001" + pair(nk, "near"), "0000" + "01" + "0002" + pair(k, "real") + pair(nk, "near"), "0000" + "01" + "0002" + pair(nk, "near") + pair(k, "real")} {
+				bl := len(body) / 2
+				pad := (4 - bl%4) % 4
+				add(TTHCase{F: (bl + pad) / 4, BLen: bl + pad, Body: body, Total: bl + pad + 20})
+			}
+		}
+	}
 	// sections with many well-formed entries (honest count, count one too many, count one too few), str and int
 	for _, n := range c.PickInts([]int{17, 33, 64, 65, 100, 128, 129, 130}, []int{16, 17, 32, 33, 64, 65, 66, 100, 127, 128, 129, 130, 256, 257, 300}) {
 		for _, kind := range []string{"01", "10"} {
@@ -835,7 +852,7 @@ func tthHostileCases(c *Ctx) []json.RawMessage {
 }
 
 func checkC06(c *Ctx) {
-	c.rule = "MC: every admissible frame of a bounded parameter domain (entry orders, ACL token, every padding residue) parses back to its parameters and has the computed info size; all 65536 flags. TRACE: parameter sets (all flags (quick: stride 97), every padding residue, info sizes 65515..65540 stepping by 1 around the 65536 limit, 64KiB-scale values, unsupported protocol ids, random maps with arbitrary bytes and the ACL key) through EncodeToBytes and Encode over a stream-backed writer (tth_enc: error iff InfoSize > 65536, layout, size field, written = header length, Parse(frame) = param) and then DecodeFromBytes / Decode over bytes- and stream-backed readers under every fragmentation with a pattern payload behind the header (tth_dec: params, HeaderLen, PayloadLen arithmetic, ReadLen, IsTTHeader/IsStreaming). BIG COLLECTIONS (Go monitor; the expectation is computed in Go from the data that was encoded, because TLC's map comparison is quadratic): header sections of 255..9000 entries (int, str, both + ACL token), both decoders."
+	c.rule = "MC: every admissible frame of a bounded parameter domain (entry orders, ACL token, every padding residue) parses back to its parameters and has the computed info size; all 65536 flags. TRACE: parameter sets (all flags (quick: stride 97), every padding residue, info sizes 65515..65540 stepping by 1 around the 65536 limit, 64KiB-scale values, unsupported protocol ids, random maps with arbitrary bytes and the ACL key) through EncodeToBytes and Encode over a stream-backed writer (tth_enc: error iff InfoSize > 65536, layout, size field, written = header length, Parse(frame) = param) and then DecodeFromBytes / Decode over bytes- and stream-backed readers under every fragmentation with a pattern payload behind the header (tth_dec: params, HeaderLen, PayloadLen arithmetic, ReadLen, IsTTHeader/IsStreaming). BIG COLLECTIONS (Go monitor; the expectation is computed in Go from the data that was encoded, because TLC's map comparison is quadratic): header sections of 255..9000 entries (int, str, both + ACL token), both decoders. Near-double dictionary keys (a NUL / space / 0xff before or after a well-known key), alone and next to the key they resemble; entries at their minimum encoded size (empty key, one-byte keys, empty values) in 1..256 entries; GIANT VALUES (Go monitor): keys / values / tokens of 64 KiB .. 8 GiB over a discarding writer must be refused."
 	c.MC("MC_TTHeader.tla", "MC_TTHeader.cfg", 4)
 	c.TraceCheck(famTTHC06, append(tthEncCases(c), tthUtilCases(c)...))
 	bigHeaderMonitor(c, "big-C06")
@@ -846,7 +863,7 @@ func checkC06(c *Ctx) {
 }
 
 func checkC10(c *Ctx) {
-	c.rule = "MC: all 65536 header-size fields x {body present, one byte short, absent}; all 65536 flags; all 256 protocol ids and info ids; transform counts 0..255 x sizes; all 65536 magic words (MC_TTHeader). TRACE: the same families replayed on the real decoders (quick: size field stride 13, flags stride 31) plus random section orders, repeated sections, interleaved padding, count 0, size fields cutting into sections, every truncation point and perturbed structural bytes of valid frames; DecodeFromBytes, Decode over a bytes reader and Decode over fragmenting stream readers must succeed exactly when Parse does, with the same maps, HeaderLen = 14 + declared, PayloadLen - total = 4 - HeaderLen, ReadLen <= min(14 + declared, len); streams of several framed messages read back to back from one reader, with and without Release in between. BIG COLLECTIONS (Go monitor; the expectation is computed in Go from the data that was encoded, because TLC's map comparison is quadratic): well-formed header sections of 255..9000 entries, both decoders. Also hand-built sections repeating one key (4 bytes per pair, up to 16380 pairs): the maps hold the last value."
+	c.rule = "MC: all 65536 header-size fields x {body present, one byte short, absent}; all 65536 flags; all 256 protocol ids and info ids; transform counts 0..255 x sizes; all 65536 magic words (MC_TTHeader). TRACE: the same families replayed on the real decoders (quick: size field stride 13, flags stride 31) plus random section orders, repeated sections, interleaved padding, count 0, size fields cutting into sections, every truncation point and perturbed structural bytes of valid frames; DecodeFromBytes, Decode over a bytes reader and Decode over fragmenting stream readers must succeed exactly when Parse does, with the same maps, HeaderLen = 14 + declared, PayloadLen - total = 4 - HeaderLen, ReadLen <= min(14 + declared, len); streams of several framed messages read back to back from one reader, with and without Release in between. BIG COLLECTIONS (Go monitor; the expectation is computed in Go from the data that was encoded, because TLC's map comparison is quadratic): well-formed header sections of 255..9000 entries, both decoders. Also hand-built sections repeating one key (4 bytes per pair, up to 16380 pairs): the maps hold the last value. Near-double dictionary keys in hand-built sections."
 	c.MC("MC_TTHeader.tla", "MC_TTHeader.cfg", 4)
 	c.TraceCheck(famTTHC10, tthHostileCases(c))
 	bigHeaderMonitor(c, "big-C10")
